@@ -153,3 +153,60 @@ func checkMessageIndexAdd(p *Program, r *Result, rule string) {
 		}
 	}
 }
+
+// C05.x (pooled state): a message index that does not come from a fresh allocation - taken from a sync.Pool, or any other
+// call result that is not a constructor of this package - still holds the entries of whoever used it last. Before it is
+// entered into the writer's per-channel table (or used at all) it must be Reset in the same function; otherwise the first
+// chunk of the next file carries the previous file's message index entries.
+func checkPooledMessageIndexes(p *Program, r *Result, rule string) {
+	n := 0
+	for _, fn := range p.repoFunctions(pkgMcap) {
+		if fn.Blocks == nil {
+			continue
+		}
+		for _, in := range instrsOf(fn) {
+			ta, ok := in.(*ssa.TypeAssert)
+			if !ok {
+				continue
+			}
+			nt, _ := structOf(ta.AssertedType)
+			if nt == nil || nt.Obj().Name() != "MessageIndex" {
+				continue
+			}
+			c, ok := ta.X.(*ssa.Call)
+			if !ok || staticCalleeName(c.Common()) != "(*sync.Pool).Get" {
+				continue
+			}
+			n++
+			var v ssa.Value = ta
+			if ta.CommaOk {
+				for _, ref := range refsOf(ta) {
+					if ex, ok := ref.(*ssa.Extract); ok && ex.Index == 0 {
+						v = ex
+					}
+				}
+			}
+			reset := false
+			for _, ref := range refsOf(v) {
+				if call, ok := ref.(ssa.CallInstruction); ok {
+					if g := call.Common().StaticCallee(); g != nil && len(call.Common().Args) > 0 && call.Common().Args[0] == v {
+						// Reset, or any method of MessageIndex that zeroes the entry count
+						for _, st := range fieldStores(g, "MessageIndex", "currentIndex") {
+							if k, ok := st.Val.(*ssa.Const); ok && k.Value != nil && k.Int64() == 0 {
+								reset = true
+							}
+						}
+					}
+				}
+			}
+			construct := "a message index taken from a pool is reset before use"
+			if reset {
+				r.held(rule, funcName(fn), construct, p.pos(ta.Pos()), "the entry count is zeroed on the pooled value")
+			} else {
+				r.violated(rule, funcName(fn), construct, p.pos(ta.Pos()),
+					"the message index comes out of a sync.Pool with the entries of its previous user and is used without being reset: the next file's first chunk carries message index entries of another file")
+			}
+		}
+	}
+	_ = n
+}
